@@ -235,7 +235,7 @@ def judge_case(label, data, keymode, accept, expect, report, plain_payload):
             elif pay != [plain_payload]:
                 bad('delivered-payload-differs', dict(), '%r vs %r' % (pay, plain_payload))
             other = [b for b in blocks if b[0] == 193]
-            if [bytes.fromhex(b[2]) for b in other] != [b'other-block']:
+            if [bytes.fromhex(b[2]) for b in other] != [bytes.fromhex(label.get('other_block', b'other-block'.hex()))]:
                 bad('other-block-changed', dict(), repr(other))
     return out, bool(delivered)
 
@@ -321,6 +321,30 @@ def run_block(params, known):
                 keys.add('%s/%s/%s/%s' % (block, mname, accept, report))
                 if len(samples) < 2 and mname in ('duplicate-result-ids', 'cose-too-few-items'):
                     samples.append(dict(label=label, octets=data.hex()))
+    if block == 'bib':
+        # a valid integrity block whose AAD scope names more than the default: block 3 by its metadata,
+        # its content or both; the target / the security block with both flags.  Intact: delivered.
+        # Content of block 3 replaced on the way: rejected exactly when the scope covers that content.
+        for scope in ({0: 1, -1: 1, 3: 1}, {0: 1, -1: 1, 3: 2}, {0: 1, -1: 1, 3: 3}, {3: 3}, {0: 1, -1: 3}, {0: 1, -1: 1, -2: 1}, {-1: 2, 3: 2}):
+            plainb = c03.plain_bundle()
+            good = A.add_bib(plainb, [1], KEY, KID, SRC, scope=scope, num=4)
+            forged = copy_bundle(good)
+            for b in forged['blocks']:
+                if b['num'] == 3:
+                    b['data'] = b'OTHER-block'
+            for accept in (False, True):
+                sname = ','.join('%d:%d' % kv for kv in sorted(scope.items()))
+                label = dict(block=block, malformation='none', report=True, scope=sname)
+                (found, dlv) = judge_case(label, B.encode(good), 'right', accept, 'deliver', True, plainb['blocks'][-1]['data'])
+                take(found)
+                covered = bool(scope.get(3, 0) & 2)
+                label = dict(block=block, malformation='covered-block-content-replaced' if covered else 'uncovered-block-content-replaced',
+                             report=True, scope=sname, other_block=b'OTHER-block'.hex())
+                (found, dlv) = judge_case(label, B.encode(forged), 'right', accept, 'reject' if covered else 'deliver', True,
+                                          plainb['blocks'][-1]['data'])
+                take(found)
+                count += 2
+                keys.add('bib/scope-%s/%s' % (sname, accept))
     if block == 'bcb':
         # a bundle whose security blocks all verify is delivered: confidentiality blocks over empty
         # and one-octet contents, one and two targets
